@@ -206,7 +206,8 @@ TEXTS = ["", "hello", "héllo wörld", "中文", "a\nb", "{}", "x" * 300, " ",
 HEADER_SETS = [None, {}, {"X-Custom": "1"}, {"x-lower": "v", "X-UPPER": "V"}, {"Content-Type": "text/x-custom"}, {"X-Latin": "caf\xe9"},
                {"Cache-Control": "no-store", "X-A": "a, b"}, {"content-length": "5"}]
 COOKIES = [[], [{"name": "sid", "value": "abc"}], [{"name": "a", "value": "1"}, {"name": "b", "value": "two words", "kw": {"max_age": 60, "httponly": True}}],
-           [{"name": "a", "value": "1"}, {"name": "a", "value": "2", "kw": {"path": "/x", "samesite": "strict"}}, {"name": "c", "value": "é;=", "kw": {"secure": True, "domain": "example.com"}}]]
+           [{"name": "a", "value": "1"}, {"name": "a", "value": "2", "kw": {"path": "/x", "samesite": "strict"}}, {"name": "c", "value": "é;=", "kw": {"secure": True, "domain": "example.com"}}],
+           [{"name": "token", "value": "abc\n"}], [{"name": "t\n", "value": "\r\nSet-Cookie: x=1"}, {"name": "q", "value": "\"x; secure; y\""}], [{"name": "z", "value": "tab\there\x00"}]]
 JSONS = [None, 1, "s", [], {}, {"a": [1, 2, {"b": None}]}, {"k": "é中"}, [1.5, True], " "]
 EVENTS = [{"data": "x"}, {"data": "a\nb", "event": "e"}, {"id": "1", "retry": 5}, {"data": "", "id": "2"}, {"data": "é", "event": "up"}]
 
@@ -276,7 +277,7 @@ def gen_response(rng, files=None, allow_sse=True, allow_raise=False):
 def gen_raw(rng):
     n = rng.choice([0, 1, 2, 3])
     hdrs = rng.choice([[], [("Content-Type", "text/plain")], [("Set-Cookie", "a=1"), ("Set-Cookie", "b=2")],
-                       [("X-A", "1"), ("X-A", "2"), ("x-b", "3")], [("Content-Type", "text/plain"), ("Set-Cookie", "a=1; Path=/"), ("Set-Cookie", "b=2; HttpOnly")]])
+                       [("X-A", "1"), ("X-A", "2"), ("x-b", "3")], [("X-Hop", "1"), ("X-Hop", "1")], [("Vary", "Accept"), ("Vary", "Accept"), ("Vary", "Origin")], [("Content-Type", "text/plain"), ("Set-Cookie", "a=1; Path=/"), ("Set-Cookie", "b=2; HttpOnly")]])
     return {"app": "raw", "status": rng.choice([200, 201, 404, 418, 599]), "headers": hdrs,
             "chunks": [rng.choice([b"hello", b"world", b"", b"\x00\xff"]) for _ in range(n)],
             "shape": rng.choice(["list", "tuple", "generator", "closing"]), "one_event": rng.random() < 0.5, "minimal_last": rng.random() < 0.3,
